@@ -7,6 +7,7 @@ import (
 	"flag"
 	"os"
 	"time"
+	"verif/harness/internal/project"
 
 	astisub "github.com/asticode/go-astisub"
 	"verif/harness/internal/run"
@@ -34,6 +35,9 @@ type ssaEvent struct {
 	Raw  string     `json:"raw"`
 	// what the hook at the top of the reader's loop reported, one entry per scanned line
 	Hooks []ssaHook `json:"hooks"`
+	// read: the same bytes read through ReadFromSSAWithOptions with zero-valued options (no callbacks): "same"
+	// when error status and result equal the default reader's, "differs" otherwise
+	ZOpt string `json:"zopt"`
 }
 
 type ssaHook struct {
@@ -67,6 +71,13 @@ func ssaRead(n int, c ssaCase) ssaEvent {
 	}
 	if ev.Res == "ok" {
 		ev.Post = ssax.Project(s, p)
+	}
+	var s0 *astisub.Subtitles
+	var err0 error
+	res0, _ := run.Guard(10*time.Second, func() { s0, err0 = astisub.ReadFromSSAWithOptions(bytes.NewReader(raw), astisub.SSAOptions{}) })
+	ev.ZOpt = "differs"
+	if res0 == "ok" && (err0 != nil) == (err != nil) && (err0 != nil || project.Digest(s0) == project.Digest(s)) {
+		ev.ZOpt = "same"
 	}
 	return ev
 }
